@@ -1,10 +1,10 @@
 import GateryModel.C09.EdgeLemmas
-import GateryModel.C09.RegLemmas
+import GateryModel.C09.DrvLemmas
 /-! `Inv` is preserved by every operation; reachable states satisfy it. -/
 namespace Gatery.C09
 
 theorem inv_init : Inv State.init := by
-  refine ⟨⟨⟨?_, ?_⟩, ⟨?_, ?_⟩, ⟨?_, ?_⟩, ⟨?_, ?_⟩, ?_⟩, ?_, ?_, ?_⟩ <;> simp [State.init, CAInv]
+  refine ⟨⟨⟨?_, ?_⟩, ⟨?_, ?_⟩, ⟨?_, ?_⟩, ⟨?_, ?_⟩, ?_, ?_⟩, ?_, ?_, ?_⟩ <;> simp [State.init, CAInv, DriverInv]
 
 theorem setType_spec {s s' : State} {h o : Nat} {t : CType} (hr : setOutputConnectionType s h o t = .ok s') :
     ∃ ct, s' = { s with ctype := ct } := by
@@ -26,11 +26,20 @@ theorem destroyNode_spec {s s' : State} {h : Nat} (hI : GInv s) (hr : destroyNod
   have hl : s.live h := Classical.not_not.mp hl
   split at hr
   · cases hr
-  obtain ⟨hE, hG, hC, hId, hA⟩ := hI
+  split at hr
+  · cases hr
+  rename_i hunb
+  obtain ⟨hE, hG, hC, hId, hA, hD⟩ := hI
+  have hns := notslot_of_unbound hD h hunb
   obtain ⟨s1, h1, hr⟩ := bind_ok.mp hr
   obtain ⟨gn, gr, rfl, hG1, _, hgr⟩ := moveToGroup_spec hG h1
   obtain ⟨s2, h2, hr⟩ := bind_ok.mp hr
   obtain ⟨cd, ck, rfl, hC1, hmon, hck⟩ := detachRange_spec (s := { s with gnodes := gn, grp := gr }) _ hC h2
+  have hD1 : DriverInv s.size s.alive s.dk s.numClk ck s.nclocks s.calive s.drv := by
+    obtain ⟨cd', ck', e', hfr⟩ := detachRange_frame (s := { s with gnodes := gn, grp := gr }) _ h2
+    have hck' : ck = ck' := by injection e'
+    subst hck'
+    exact di_clk_other hD h hfr hns
   have hA1 : CAInv s.size s.alive s.numClk ck s.calive := ca_mono hA (fun x y v e => by
     rcases hmon x y with e1 | e1
     · rw [e1] at e; cases e
@@ -43,7 +52,7 @@ theorem destroyNode_spec {s s' : State} {h : Nat} (hI : GInv s) (hr : destroyNod
     resizeOutputs_spec (s := { s with gnodes := gn, grp := gr, clocked := cd, clk := ck, conns := c, inp := ip, numIn := ni }) hE1 h4
   have e := Except.ok.inj hr
   subst e
-  refine ⟨⟨free_edge hE2 h hni hno, free_group hG1 h hgr, free_clock hC1 h ?_, free_id hId h, free_ca hA1 h⟩, rfl, rfl, rfl, hl⟩
+  refine ⟨⟨free_edge hE2 h hni hno, free_group hG1 h hgr, free_clock hC1 h ?_, free_id hId h, free_ca hA1 h, free_di hD1 h hns⟩, rfl, rfl, rfl, hl⟩
   intro p hp
   exact hck p (List.mem_range.mpr hp)
 
@@ -149,36 +158,37 @@ theorem signalConnect_spec {s s' : State} {h : Nat} {d : Option NodePort} (hE : 
 
 /-- the part of `inv_step` that the composite operations below are built from -/
 theorem prim_inv {s s' : State} (hI : Inv s) :
-    (∀ sig a b c, Inv (createNode s sig a b c)) ∧
+    (∀ sig a b c k, Inv (createNode s sig a b c k)) ∧
     (∀ h g, moveToGroup s h g = .ok s' → Inv s') ∧
     (∀ h i d, connectInput s h i d = .ok s' → Inv s') ∧
-    (∀ h p c, attachClock s h p c = .ok s' → Inv s') ∧
+    (∀ h p c, NotSlot s h → attachClock s h p c = .ok s' → Inv s') ∧
     Inv (createClock s) := by
-  obtain ⟨⟨hE, hG, hC, hId, hA⟩, hO⟩ := hI
+  obtain ⟨⟨hE, hG, hC, hId, hA, hD⟩, hO⟩ := hI
   refine ⟨?_, ?_, ?_, ?_, ?_⟩
-  · intro sig a b c
-    exact ⟨⟨create_edge hE a b, create_group hG, create_clock hC c, create_id hId, create_ca hA c⟩, create_order hO⟩
+  · intro sig a b c k
+    exact ⟨⟨create_edge hE a b, create_group hG, create_clock hC c, create_id hId, create_ca hA c, create_di hD k c⟩, create_order hO⟩
   · intro h g hr
     obtain ⟨gn, gr, rfl, h1, _⟩ := moveToGroup_spec hG hr
-    exact ⟨⟨hE, h1, hC, hId, hA⟩, hO⟩
+    exact ⟨⟨hE, h1, hC, hId, hA, hD⟩, hO⟩
   · intro h i d hr
     obtain ⟨ip, c, rfl, h1, _⟩ := connect_spec hE hr
-    exact ⟨⟨h1, hG, hC, hId, hA⟩, hO⟩
-  · intro h p c hr
+    exact ⟨⟨h1, hG, hC, hId, hA, hD⟩, hO⟩
+  · intro h p c hns hr
+    have hD1 := attachClock_di hD hns hr
     obtain ⟨cd, ck, rfl, h1, hprov⟩ := attachClock_spec hC hr
-    exact ⟨⟨hE, hG, h1, hId, ca_mono hA hprov⟩, hO⟩
-  · exact ⟨⟨hE, hG, newclock_clock hC, hId, newclock_ca hA _⟩, hO⟩
+    exact ⟨⟨hE, hG, h1, hId, ca_mono hA hprov, hD1⟩, hO⟩
+  · exact ⟨⟨hE, hG, newclock_clock hC, hId, newclock_ca hA _, newclock_di hD⟩, hO⟩
 
 theorem cloneNode_inv {s s' : State} {src : Nat} (hI : Inv s) (hr : cloneNode s src = .ok s') : Inv s' := by
   unfold cloneNode at hr
   split at hr
   · cases hr
   simp only at hr
-  have h1 : Inv (createNode s (s.isSig src) (s.numIn src) (s.numOut src) (s.numClk src)) := (prim_inv (s' := s) hI).1 _ _ _ _
+  have h1 : Inv (createNode s (s.isSig src) (s.numIn src) (s.numOut src) (s.numClk src) (s.dk src)) := (prim_inv (s' := s) hI).1 _ _ _ _ _
   -- changing output types does not touch anything the invariant mentions
-  have h2 : Inv { createNode s (s.isSig src) (s.numIn src) (s.numOut src) (s.numClk src) with
+  have h2 : Inv { createNode s (s.isSig src) (s.numIn src) (s.numOut src) (s.numClk src) (s.dk src) with
       ctype := fun x y => if x = s.size then s.ctype src y
-        else (createNode s (s.isSig src) (s.numIn src) (s.numOut src) (s.numClk src)).ctype x y } := h1
+        else (createNode s (s.isSig src) (s.numIn src) (s.numOut src) (s.numClk src) (s.dk src)).ctype x y } := h1
   exact (prim_inv h2).2.1 _ _ hr
 
 theorem fresh_id {size : Nat} {alive : Nat → Bool} {nid : Nat → Nat} {nextId : Nat}
@@ -198,12 +208,12 @@ theorem fresh_id {size : Nat} {alive : Nat → Bool} {nid : Nat → Nat} {nextId
     · rw [if_neg e1, if_neg e2] at e; exact h2 x hs ha k hk hka e
 
 theorem setFreshId_inv {s : State} (h : Nat) (hI : Inv s) : Inv (setFreshId s h) := by
-  obtain ⟨⟨hE, hG, hC, hId, hA⟩, hO⟩ := hI
-  exact ⟨⟨hE, hG, hC, fresh_id hId h, hA⟩, hO⟩
+  obtain ⟨⟨hE, hG, hC, hId, hA, hD⟩, hO⟩ := hI
+  exact ⟨⟨hE, hG, hC, fresh_id hId h, hA, hD⟩, hO⟩
 
-theorem foldRes_inv {α : Type} (f : State → α → Res State)
-    (hf : ∀ s a s', Inv s → f s a = .ok s' → Inv s') :
-    ∀ (l : List α) (s s' : State), Inv s → foldRes f s l = .ok s' → Inv s' := by
+theorem foldRes_pres {α : Type} (P : State → Prop) (f : State → α → Res State)
+    (hf : ∀ s a s', P s → f s a = .ok s' → P s') :
+    ∀ (l : List α) (s s' : State), P s → foldRes f s l = .ok s' → P s' := by
   intro l
   induction l with
   | nil => intro s s' hI hr; have e := Except.ok.inj hr; subst e; exact hI
@@ -212,57 +222,141 @@ theorem foldRes_inv {α : Type} (f : State → α → Res State)
     obtain ⟨s1, h1, h2⟩ := bind_ok.mp hr
     exact ih s1 s' (hf s a s1 hI h1) h2
 
-theorem copyScan_inv (inputs : List NodePort) :
+/-- the clone is a new handle; clocks and their driver slots are untouched -/
+theorem cloneNode_frame {s s' : State} {src : Nat} (hI : Inv s) (hr : cloneNode s src = .ok s') :
+    s'.size = s.size + 1 ∧ s'.drv = s.drv ∧ s'.nclocks = s.nclocks ∧ s'.calive = s.calive := by
+  unfold cloneNode at hr
+  split at hr
+  · cases hr
+  simp only at hr
+  have hG : G { createNode s (s.isSig src) (s.numIn src) (s.numOut src) (s.numClk src) (s.dk src) with
+      ctype := fun x y => if x = s.size then s.ctype src y
+        else (createNode s (s.isSig src) (s.numIn src) (s.numOut src) (s.numClk src) (s.dk src)).ctype x y } :=
+    ((prim_inv (s' := s) hI).1 (s.isSig src) (s.numIn src) (s.numOut src) (s.numClk src) (s.dk src)).1.2.1
+  obtain ⟨gn, gr, rfl, _⟩ := moveToGroup_spec hG hr
+  exact ⟨rfl, rfl, rfl, rfl⟩
+
+/-- what `copySubnet` maintains: the invariant, and every driver slot still points to a node that existed before the call -/
+def CopyP (b : Nat) (s : State) : Prop := Inv s ∧ SB b s ∧ b ≤ s.size
+
+theorem copyScan_inv (inputs : List NodePort) (b : Nat) :
     ∀ (fuel : Nat) (s : State) (op : List NodePort) (closed : List Nat) (m : List (Nat × Nat)) (s' : State) (m' : List (Nat × Nat)),
-      Inv s → copyScan inputs fuel s op closed m = .ok (s', m') → Inv s' := by
+      CopyP b s → (∀ e ∈ m, b ≤ e.2) → copyScan inputs fuel s op closed m = .ok (s', m') →
+      CopyP b s' ∧ (∀ e ∈ m', b ≤ e.2) := by
   intro fuel
   induction fuel with
   | zero =>
-    intro s op closed m s' m' hI hr
+    intro s op closed m s' m' hI hm hr
     unfold copyScan at hr
     split at hr
     · have e := Except.ok.inj hr
-      injection e with e1 e2; subst e1; exact hI
+      injection e with e1 e2; subst e1; subst e2; exact ⟨hI, hm⟩
     · cases hr
   | succ n ih =>
-    intro s op closed m s' m' hI hr
+    intro s op closed m s' m' hI hm hr
     unfold copyScan at hr
     split at hr
     · have e := Except.ok.inj hr
-      injection e with e1 e2; subst e1; exact hI
+      injection e with e1 e2; subst e1; subst e2; exact ⟨hI, hm⟩
     · split at hr
-      · exact ih _ _ _ _ _ _ hI hr
+      · exact ih _ _ _ _ _ _ hI hm hr
       · obtain ⟨s1, h1, h2⟩ := bind_ok.mp hr
-        exact ih _ _ _ _ _ _ (cloneNode_inv hI h1) h2
+        obtain ⟨hInv, hSB, hb⟩ := hI
+        obtain ⟨e1, e2, e3, e4⟩ := cloneNode_frame hInv h1
+        refine ih _ _ _ _ _ _ ⟨cloneNode_inv hInv h1, ?_, by omega⟩ ?_ h2
+        · intro c hc hcal k hk hk0 d hd
+          rw [e2] at hd; rw [e3] at hc; rw [e4] at hcal
+          exact hSB c hc hcal k hk hk0 d hd
+        · intro e he
+          rcases List.mem_append.mp he with h3 | h3
+          · exact hm e h3
+          · have h4 : e.2 = s.size := by
+              have := List.mem_singleton.mp h3
+              rw [this]
+            rw [h4]; exact hb
 
-theorem foldl_setFreshId_inv (l : List (Nat × Nat)) : ∀ (s : State), Inv s → Inv (l.foldl (fun s e => setFreshId s e.2) s) := by
+theorem foldl_setFreshId_inv (b : Nat) (l : List (Nat × Nat)) :
+    ∀ (s : State), CopyP b s → CopyP b (l.foldl (fun s e => setFreshId s e.2) s) := by
   induction l with
   | nil => intro s hI; exact hI
-  | cons a l ih => intro s hI; exact ih _ (setFreshId_inv a.2 hI)
+  | cons a l ih => intro s hI; exact ih _ ⟨setFreshId_inv a.2 hI.1, hI.2.1, hI.2.2⟩
 
-theorem copyReconnect_inv (m : List (Nat × Nat)) (cc : Bool) (s : State) (e : Nat × Nat) (s' : State)
-    (hI : Inv s) (hr : copyReconnect m cc s e = .ok s') : Inv s' := by
+theorem mem_insertByKey (key : Nat → Nat) (e x : Nat × Nat) (l : List (Nat × Nat)) :
+    x ∈ insertByKey key e l → x = e ∨ x ∈ l := by
+  induction l with
+  | nil => intro h; simp [insertByKey] at h; exact Or.inl h
+  | cons y ys ih =>
+    intro h
+    unfold insertByKey at h
+    split at h
+    · rcases List.mem_cons.mp h with h1 | h1
+      · exact Or.inl h1
+      · exact Or.inr h1
+    · rcases List.mem_cons.mp h with h1 | h1
+      · exact Or.inr (by rw [h1]; exact List.mem_cons_self)
+      · rcases ih h1 with h2 | h2
+        · exact Or.inl h2
+        · exact Or.inr (List.mem_cons_of_mem _ h2)
+
+theorem mem_sortByKey (key : Nat → Nat) (l : List (Nat × Nat)) (x : Nat × Nat) : x ∈ sortByKey key l → x ∈ l := by
+  unfold sortByKey
+  suffices h : ∀ (l acc : List (Nat × Nat)), x ∈ l.foldl (fun acc e => insertByKey key e acc) acc → x ∈ acc ∨ x ∈ l by
+    intro hx
+    rcases h l [] hx with h1 | h1
+    · cases h1
+    · exact h1
+  intro l
+  induction l with
+  | nil => intro acc h; exact Or.inl h
+  | cons y ys ih =>
+    intro acc h
+    rcases ih _ h with h1 | h1
+    · rcases mem_insertByKey key y x acc h1 with h2 | h2
+      · exact Or.inr (by rw [h2]; exact List.mem_cons_self)
+      · exact Or.inl h2
+    · exact Or.inr (List.mem_cons_of_mem _ h1)
+
+theorem copyReconnect_inv (b : Nat) (m : List (Nat × Nat)) (cc : Bool) (s : State) (e : Nat × Nat) (s' : State) (he : b ≤ e.2)
+    (hI : CopyP b s) (hr : copyReconnect m cc s e = .ok s') : CopyP b s' := by
   obtain ⟨old, new⟩ := e
   unfold copyReconnect at hr
   simp only at hr
   obtain ⟨s1, h1, h2⟩ := bind_ok.mp hr
-  have hI1 : Inv s1 := by
-    refine foldRes_inv _ ?_ _ _ _ hI h1
+  have hI1 : CopyP b s1 := by
+    refine foldRes_pres (CopyP b) _ ?_ _ _ _ hI h1
     intro s0 i s0' hI0 hr0
     try simp only at hr0
     split at hr0
     · have e := Except.ok.inj hr0; subst e; exact hI0
     · split at hr0
       · have e := Except.ok.inj hr0; subst e; exact hI0
-      · exact (prim_inv hI0).2.2.1 _ _ _ hr0
-  refine foldRes_inv _ ?_ _ _ _ hI1 h2
+      · obtain ⟨ip, c, e1, _⟩ := connect_spec hI0.1.1.1 hr0
+        refine ⟨(prim_inv hI0.1).2.2.1 _ _ _ hr0, ?_, ?_⟩
+        · subst e1; exact hI0.2.1
+        · subst e1; exact hI0.2.2
+  refine foldRes_pres (CopyP b) _ ?_ _ _ _ hI1 h2
   intro s0 p s0' hI0 hr0
   try simp only at hr0
   split at hr0
   · have e := Except.ok.inj hr0; subst e; exact hI0
-  · split at hr0
-    · exact (prim_inv (s' := s0') (prim_inv (s' := s0) hI0).2.2.2.2).2.2.2.1 _ _ _ hr0
-    · exact (prim_inv hI0).2.2.2.1 _ _ _ hr0
+  · have hSBc : SB b (createClock s0) := by
+      intro c hc hcal k hk hk0 d hd
+      simp only [createClock] at hd hc hcal
+      split at hd
+      · cases hd
+      · rename_i hne
+        rw [upd_apply, if_neg hne] at hcal
+        exact hI0.2.1 c (by omega) hcal k hk hk0 d hd
+    split at hr0
+    · have hIc : Inv (createClock s0) := (prim_inv (s' := s0) hI0.1).2.2.2.2
+      obtain ⟨cd, ck, e1, _⟩ := attachClock_frame hr0
+      refine ⟨(prim_inv (s' := s0') hIc).2.2.2.1 _ _ _ (notSlot_of_SB new hSBc he) hr0, ?_, ?_⟩
+      · subst e1; exact hSBc
+      · subst e1; exact hI0.2.2
+    · obtain ⟨cd, ck, e1, _⟩ := attachClock_frame hr0
+      refine ⟨(prim_inv hI0.1).2.2.2.1 _ _ _ (notSlot_of_SB new hI0.2.1 he) hr0, ?_, ?_⟩
+      · subst e1; exact hI0.2.1
+      · subst e1; exact hI0.2.2
 
 theorem copySubnet_inv {s s' : State} {ins outs : List NodePort} {cc : Bool} (hI : Inv s)
     (hr : copySubnet s ins outs cc = .ok s') : Inv s' := by
@@ -271,12 +365,26 @@ theorem copySubnet_inv {s s' : State} {ins outs : List NodePort} {cc : Bool} (hI
   · cases hr
   simp only at hr
   obtain ⟨⟨s1, m⟩, h1, h2⟩ := bind_ok.mp hr
-  have hI1 : Inv s1 := copyScan_inv ins _ _ _ _ _ _ _ hI h1
+  have h0 : CopyP s.size s := ⟨hI, SB_of_D hI.1.2.2.2.2.2, Nat.le_refl _⟩
+  obtain ⟨hI1, hm⟩ := copyScan_inv ins s.size _ _ _ _ _ _ _ h0 (by simp) h1
   simp only at h2
-  exact foldRes_inv _ (copyReconnect_inv m cc) _ _ _ (foldl_setFreshId_inv _ _ hI1) h2
+  have hP := foldl_setFreshId_inv s.size (sortByKey s1.nid m) s1 hI1
+  -- every clone is reconnected with the bound of its handle
+  suffices h : ∀ (l : List (Nat × Nat)) (t t' : State), (∀ e ∈ l, s.size ≤ e.2) → CopyP s.size t →
+      foldRes (copyReconnect m cc) t l = .ok t' → CopyP s.size t' from
+    (h _ _ _ (fun e he => hm e (mem_sortByKey _ _ _ he)) hP h2).1
+  intro l
+  induction l with
+  | nil => intro t t' _ hI hr; have e := Except.ok.inj hr; subst e; exact hI
+  | cons a l ih =>
+    intro t t' hl hI hr
+    obtain ⟨t1, h3, h4⟩ := bind_ok.mp hr
+    exact ih t1 t' (fun e he => hl e (List.mem_cons_of_mem _ he))
+      (copyReconnect_inv s.size m cc t a t1 (hl a List.mem_cons_self) hI h3) h4
 
 theorem destroyClock_inv {s s' : State} {c : Nat} (hI : Inv s) (hr : destroyClock s c = .ok s') : Inv s' := by
-  obtain ⟨⟨hE, hG, hC, hId, hA⟩, hO⟩ := hI
+  obtain ⟨⟨hE, hG, hC, hId, hA, hD⟩, hO⟩ := hI
+  have hD1 := destroyClock_di hC hD hr
   unfold destroyClock at hr
   split at hr
   · cases hr
@@ -288,39 +396,39 @@ theorem destroyClock_inv {s s' : State} {c : Nat} (hI : Inv s) (hr : destroyCloc
     rcases hmon x y with e1 | e1
     · rw [e1] at e; cases e
     · left; rw [← e1]; exact e)
-  exact ⟨⟨hE, hG, hC1, hId, killclock_ca hA1 hC1 c hz⟩, hO⟩
+  exact ⟨⟨hE, hG, hC1, hId, killclock_ca hA1 hC1 c hz, hD1⟩, hO⟩
 
 /-- every operation preserves the invariant -/
 theorem inv_step {s s' : State} (op : Op) (hI : Inv s) (hr : step s op = .ok s') : Inv s' := by
-  obtain ⟨⟨hE, hG, hC, hId, hA⟩, hO⟩ := hI
+  obtain ⟨⟨hE, hG, hC, hId, hA, hD⟩, hO⟩ := hI
   cases op with
-  | createNode sig a b c =>
+  | createNode sig a b c k =>
     have e := Except.ok.inj hr
     subst e
-    exact ⟨⟨create_edge hE a b, create_group hG, create_clock hC c, create_id hId, create_ca hA c⟩, create_order hO⟩
+    exact ⟨⟨create_edge hE a b, create_group hG, create_clock hC c, create_id hId, create_ca hA c, create_di hD k c⟩, create_order hO⟩
   | createGroup =>
     have e := Except.ok.inj hr
     subst e
-    exact ⟨⟨hE, newgroup_group hG, hC, hId, hA⟩, hO⟩
+    exact ⟨⟨hE, newgroup_group hG, hC, hId, hA, hD⟩, hO⟩
   | createClock =>
     have e := Except.ok.inj hr
     subst e
-    exact ⟨⟨hE, hG, newclock_clock hC, hId, newclock_ca hA _⟩, hO⟩
+    exact ⟨⟨hE, hG, newclock_clock hC, hId, newclock_ca hA _, newclock_di hD⟩, hO⟩
   | connect h i d =>
     obtain ⟨ip, c, rfl, h1, _⟩ := connect_spec hE hr
-    exact ⟨⟨h1, hG, hC, hId, hA⟩, hO⟩
+    exact ⟨⟨h1, hG, hC, hId, hA, hD⟩, hO⟩
   | disconnect h i =>
     obtain ⟨ip, c, rfl, h1, _⟩ := disconnect_spec hE hr
-    exact ⟨⟨h1, hG, hC, hId, hA⟩, hO⟩
+    exact ⟨⟨h1, hG, hC, hId, hA, hD⟩, hO⟩
   | signalConnect h d =>
     obtain ⟨ip, c, ct, rfl, h1⟩ := signalConnect_spec hE hr
-    exact ⟨⟨h1, hG, hC, hId, hA⟩, hO⟩
+    exact ⟨⟨h1, hG, hC, hId, hA, hD⟩, hO⟩
   | resizeInputs h n =>
     obtain ⟨ip, c, ni, rfl, h1, _⟩ := resizeInputs_spec hE hr
-    exact ⟨⟨h1, hG, hC, hId, hA⟩, hO⟩
+    exact ⟨⟨h1, hG, hC, hId, hA, hD⟩, hO⟩
   | resizeOutputs h n =>
     obtain ⟨ip, c, no, ct, rfl, h1, _⟩ := resizeOutputs_spec hE hr
-    exact ⟨⟨h1, hG, hC, hId, hA⟩, hO⟩
+    exact ⟨⟨h1, hG, hC, hId, hA, hD⟩, hO⟩
   | bypass h o i =>
     simp only [step] at hr
     unfold bypassOutputToInput at hr
@@ -331,26 +439,44 @@ theorem inv_step {s s' : State} (op : Op) (hI : Inv s) (hr : step s op = .ok s')
     split at hr
     · cases hr
     obtain ⟨ip, c, rfl, h1, _⟩ := bypassLoop_spec _ hE hr
-    exact ⟨⟨h1, hG, hC, hId, hA⟩, hO⟩
+    exact ⟨⟨h1, hG, hC, hId, hA, hD⟩, hO⟩
   | setType h o t =>
     obtain ⟨ct, rfl⟩ := setType_spec hr
-    exact ⟨⟨hE, hG, hC, hId, hA⟩, hO⟩
+    exact ⟨⟨hE, hG, hC, hId, hA, hD⟩, hO⟩
   | moveToGroup h g =>
     obtain ⟨gn, gr, rfl, h1, _⟩ := moveToGroup_spec hG hr
-    exact ⟨⟨hE, h1, hC, hId, hA⟩, hO⟩
+    exact ⟨⟨hE, h1, hC, hId, hA, hD⟩, hO⟩
   | attachClock h p c =>
+    simp only [step] at hr
+    split at hr
+    · cases hr
+    rename_i h0
+    have h0 : s.dk h = 0 := Classical.not_not.mp h0
+    have hD1 := attachClock_di hD (notslot_of_dk0 hD h h0) hr
     obtain ⟨cd, ck, rfl, h1, hprov⟩ := attachClock_spec hC hr
-    exact ⟨⟨hE, hG, h1, hId, ca_mono hA hprov⟩, hO⟩
+    exact ⟨⟨hE, hG, h1, hId, ca_mono hA hprov, hD1⟩, hO⟩
   | detachClock h p =>
+    simp only [step] at hr
+    split at hr
+    · cases hr
+    rename_i h0
+    have h0 : s.dk h = 0 := Classical.not_not.mp h0
+    have hD1 := detachClock_di hD (notslot_of_dk0 hD h h0) hr
     obtain ⟨cd, ck, rfl, h1, _, _, _, hmon⟩ := detachClock_spec hC hr
     have hA1 : CAInv s.size s.alive s.numClk ck s.calive := ca_mono hA (fun x y v e => by
       rcases hmon x y with e1 | e1
       · rw [e1] at e; cases e
       · left; rw [← e1]; exact e)
-    exact ⟨⟨hE, hG, h1, hId, hA1⟩, hO⟩
+    exact ⟨⟨hE, hG, h1, hId, hA1, hD1⟩, hO⟩
   | addClock h c =>
+    simp only [step] at hr
+    split at hr
+    · cases hr
+    rename_i h0
+    have h0 : s.dk h = 0 := Classical.not_not.mp h0
+    have hD1 := addClock_di hD h0 hr
     obtain ⟨cd, ck, nk, rfl, h1, hprov, hnk, _⟩ := addClock_spec hC hr
-    exact ⟨⟨hE, hG, h1, hId, grow_ca hA h hprov hnk⟩, hO⟩
+    exact ⟨⟨hE, hG, h1, hId, grow_ca hA h hprov hnk, hD1⟩, hO⟩
   | addRef h =>
     simp only [step] at hr
     unfold addRef at hr
@@ -358,7 +484,7 @@ theorem inv_step {s s' : State} (op : Op) (hI : Inv s) (hr : step s op = .ok s')
     · cases hr
     · have e := Except.ok.inj hr
       subst e
-      exact ⟨⟨hE, hG, hC, hId, hA⟩, hO⟩
+      exact ⟨⟨hE, hG, hC, hId, hA, hD⟩, hO⟩
   | removeRef h =>
     simp only [step] at hr
     unfold removeRef at hr
@@ -368,12 +494,15 @@ theorem inv_step {s s' : State} (op : Op) (hI : Inv s) (hr : step s op = .ok s')
       · cases hr
       · have e := Except.ok.inj hr
         subst e
-        exact ⟨⟨hE, hG, hC, hId, hA⟩, hO⟩
-  | eraseNode idx => exact eraseNode_inv ⟨⟨hE, hG, hC, hId, hA⟩, hO⟩ hr
-  | cullOrphanedSignals => exact cull_inv ⟨⟨hE, hG, hC, hId, hA⟩, hO⟩ hr
-  | cloneNode src => exact cloneNode_inv ⟨⟨hE, hG, hC, hId, hA⟩, hO⟩ hr
-  | copySubnet ins outs cc => exact copySubnet_inv ⟨⟨hE, hG, hC, hId, hA⟩, hO⟩ hr
-  | destroyClock c => exact destroyClock_inv ⟨⟨hE, hG, hC, hId, hA⟩, hO⟩ hr
+        exact ⟨⟨hE, hG, hC, hId, hA, hD⟩, hO⟩
+  | eraseNode idx => exact eraseNode_inv ⟨⟨hE, hG, hC, hId, hA, hD⟩, hO⟩ hr
+  | cullOrphanedSignals => exact cull_inv ⟨⟨hE, hG, hC, hId, hA, hD⟩, hO⟩ hr
+  | cloneNode src => exact cloneNode_inv ⟨⟨hE, hG, hC, hId, hA, hD⟩, hO⟩ hr
+  | copySubnet ins outs cc => exact copySubnet_inv ⟨⟨hE, hG, hC, hId, hA, hD⟩, hO⟩ hr
+  | destroyClock c => exact destroyClock_inv ⟨⟨hE, hG, hC, hId, hA, hD⟩, hO⟩ hr
+  | setLogicDriver k c d =>
+    obtain ⟨cd, ck, dv, rfl, h1, h2, h3⟩ := setLogicDriver_spec hC hA hD hr
+    exact ⟨⟨hE, hG, h1, hId, h2, h3⟩, hO⟩
 
 theorem inv_run (ops : List Op) : ∀ {s s' : State}, Inv s → run s ops = .ok s' → Inv s' := by
   induction ops with
